@@ -111,12 +111,24 @@ class PopAdapter(Adapter):
     def n(self):
         return self._n
 
+    dim_names = None
+
     def raw(self):
         m = hier.make_population(self.units, self.n_ids, self.bare)
         m.set_n_ids(self.n_ids)
+        if self.dim_names:
+            m.set_dim_names(list(self.dim_names))
         return m
 
     def reduced(self):
+        if self.dim_names:
+            # the dimensions are (re)named after the wrapper was built, as a
+            # hierarchical likelihood or the controller does
+            m = hier.make_population(self.units, self.n_ids, self.bare)
+            m.set_n_ids(self.n_ids)
+            r = chi.ReducedPopulationModel(m)
+            r.set_dim_names(list(self.dim_names))
+            return r
         return chi.ReducedPopulationModel(self.raw())
 
     def names(self, obj):
@@ -529,6 +541,8 @@ def _apply(state, call):
 
 def case_step(B, cfg):
     A = make_adapter(B, cfg['object'])
+    if cfg.get('rename_dims') and cfg['object'][0] == 'pop':
+        A.dim_names = ['V%d' % d for d in range(A.D)]
     n = A.n()
     full_names = A.names(A.raw())
     B.fact('distinct parameter names', len(set(full_names)) == n,
@@ -707,6 +721,8 @@ def jobs(tier):
                        evaluate_between=(j % 2 == 1))
             if spec[0] in ('mech', 'll'):
                 cfg['sens_pre'] = (j // 2) % 2 == 0
+            if spec[0] == 'pop' and j % 3 == 1:
+                cfg['rename_dims'] = True
             if spec[0] == 'mech' and p and j % 3 == 0:
                 cfg['via_copy'] = True
             out.append(('step', 'case_step', cfg, {
